@@ -117,6 +117,7 @@ type Link struct {
 
 	mu       sync.Mutex
 	closes   int
+	dead     bool
 	closedCh chan struct{}
 	incoming chan stream.Stream
 	// OnClose, if set, is called (once, on the first Close) outside the lock.
@@ -167,15 +168,38 @@ func (l *Link) Close() error {
 	l.mu.Lock()
 	l.closes++
 	first := l.closes == 1
+	dead := l.dead
 	cb := l.OnClose
 	l.mu.Unlock()
 	if first {
-		close(l.closedCh)
+		if !dead {
+			close(l.closedCh)
+		}
 		if cb != nil {
 			cb(l)
 		}
 	}
 	return nil
+}
+
+// SetOnClose replaces the close callback.
+func (l *Link) SetOnClose(f func(l *Link)) {
+	l.mu.Lock()
+	l.OnClose = f
+	l.mu.Unlock()
+}
+
+// Kill makes the link dead (AcceptStream/OpenStream fail) without counting as a Close call:
+// the remote side went away.
+func (l *Link) Kill() {
+	l.mu.Lock()
+	dead := l.dead
+	l.dead = true
+	first := l.closes == 0 && !dead
+	l.mu.Unlock()
+	if first {
+		close(l.closedCh)
+	}
 }
 
 // CloseCount returns how often Close was called.
